@@ -91,6 +91,16 @@ __CPROVER_ensures(self->hllByteArr_[slotNo >> 1] == ((slotNo & 1) ? (uint8_t)((_
 '''
 
 
+def stop_before_loop_block(total=1, stop_text="{ g_stopped = 1; return; }"):
+    """structural rule for prefix jobs: the innermost { } block enclosing loop #1 is replaced by `stop_text` (the function returns there);
+    everything textually before that block is verified by the job, the block itself by another job."""
+    k = keep_only_loop(0, total)
+    def rule(body):
+        body2, n = k(body)
+        return body2.replace('{ __CPROVER_assert(0, "excluded by the case precondition of this job"); }', stop_text), n
+    return rule
+
+
 def keep_only_loop(keep, total, label="excluded by the case precondition of this job"):
     """structural rule for case-split jobs: the innermost { } block enclosing every loop other than loop #keep (ordinals in textual
     order, `total` loops expected) is replaced by an assertion that it is unreachable.  The job's case precondition must make those
